@@ -25,6 +25,14 @@ RULE = ('generated error files: random bodies (n in 1..40, 0..30 errors), header
         'recorded value and modifies that: every model\'s outcome sequence must still be the one its file dictates '
         '(model asked per FileErrorModel), served arrays must not share memory with anything the caller holds, held '
         'arrays must not change. Recorded values are decoded by the harness from the file text (not by paulitools). '
+        'Header STRING contents as a class: labels and extra attributes (plain, nested in lists / objects, as inner '
+        'keys; json.dumps and hand-written escape spellings) holding //, #, /* */, quotes, backslashes, braces, brackets, '
+        'commas, colons, leading / trailing blanks, \\u escapes, next to comment lines with the same contents - such '
+        'files are well-formed and must open, expose label / extras unchanged and replay the body; JSON followed by // '
+        'on the same line and #, /* */, -- comments are malformed. Requested PROBABILITY values as a class: the header '
+        'value, ints / bools / numpy.float64 equal to it, the adjacent doubles, relative and absolute offsets 1e-16..1e-6, '
+        '2**-50..2**-40, the same decimal number computed differently (0.1+0.2 against 0.3, x*3/3, 1-(1-x), 15/12/9 '
+        'digit prints, float32 rounding) for generate and probability_distribution: served iff equal as numbers. '
         'non-trivial = file with a body or a malformed construct')
 
 WS = [' ', '\t', '  ', ' \t ']   # JSON whitespace only before JSON values; no \r (newline translation is the OS layer)
@@ -127,7 +135,8 @@ def gen_file(rng, malformed):
     body_lines = [json.dumps(b) for b in body]
     if malformed:
         kind = rng.choice(['missing-key', 'repeated-key', 'header-after-body', 'bad-json', 'bad-body', 'bad-attr',
-                           'shadow-attr', 'bad-probability', 'short-entry', 'leading-digit-attr'])
+                           'shadow-attr', 'bad-probability', 'short-entry', 'leading-digit-attr',
+                           'trailing-comment', 'foreign-comment'])
         if kind == 'missing-key':
             k = rng.choice(['probability', 'label'])
             for o in objs:
@@ -163,6 +172,14 @@ def gen_file(rng, malformed):
                 b[1] = rng.choice([0, 1, 2 * n - 1, 2 * n + 8, 10 ** 6]); body_lines[i] = json.dumps(b)
         elif kind == 'leading-digit-attr':
             objs[-1]['9lives'] = 1
+        elif kind == 'trailing-comment':
+            # the comment rule is "whitespace then // at the START of a line": JSON followed by // on the same line is bad JSON
+            i = rng.randrange(len(objs))
+            objs[i] = json.dumps(objs[i]) + rng.choice([' // note', '// note', ' //', '\t// {"a": 1}', ' // ["00", 2]'])
+        elif kind == 'foreign-comment':
+            # only // starts a comment: other comment syntaxes are bad JSON
+            objs.insert(rng.randrange(len(objs) + 1), rng.choice(['# comment', ' # {"a": 1}', '/* comment */', '/ / comment',
+                                                                  '-- comment', '; comment', '<!-- c -->', '\\\\ comment']))
     lines = [o if isinstance(o, str) else json.dumps(o) for o in objs] + body_lines
     # decorate with comments / blank lines / leading whitespace
     out = []
@@ -216,6 +233,216 @@ def gen_length_file(rng, n):
     lines = decorate(rng, [json.dumps(header)] + [json.dumps(b) for b in body])
     return lines, {'n': n, 'm': len(body), 'p': p, 'kind': 'wellformed', 'cls': 'lengths:' + mode, 'header': header,
                    'calls': calls, 'start': 0}
+
+
+# ---- header STRING contents as a class ---------------------------------------------------------------------------------
+# The comment rule is "optional whitespace, then // at the START of the line".  Inside a JSON string anything may occur:
+# //, #, /* */, quotes, backslashes, braces, brackets, commas, colons, leading / trailing blanks, escapes.  Such files are
+# well-formed: they must open, expose label and extras unchanged and replay the body.
+TRICKY = ['batch 3//7', 'https://example.org/a//b?x=1', '// not a comment', ' // lead', '//', 'a // b // c', '#hash',
+          '# x // y', '/* block */', '/', '///', 'say "hi"', '"', 'back\\slash', 'c:\\dir\\//x', '\\', '\\//', '{"a": 1}',
+          '{', '}', '[1, 2]', ']', ',', 'a,b', 'k: v', ' lead', 'trail ', '  ', '\ttab', 'new\nline // x', "it's",
+          '{"probability": 0.5} // c', '["00", 2]', 'caf\xe9 // bar', '\x7f', 'null', 'true', '0.1']
+# (raw JSON text as it stands in the file, decoded value): spellings json.dumps does not produce
+RAW_STRINGS = [('"a\\u002f\\u002fb"', 'a//b'), ('"\\/\\/ c"', '// c'), ('"\\u0023 x // y"', '# x // y'),
+               ('"x\\u0020//\\u0020y"', 'x // y'), ('"q\\"//\\"q"', 'q"//"q'), ('"b\\\\//"', 'b\\//'),
+               ('"\\u00e9//\\u00E9"', '\xe9//\xe9'), ('"\\t// tab"', '\t// tab'), ('"//\\n//"', '//\n//')]
+EXTRA_NAMES = ['url', 'note', 'src', 'a1', 'X_y', 'batch', 'path', 'bias', 'decoder']
+TRICKY_COMMENTS = ['// see https://example.org//x', '  // "quoted" # { [', '//{"label": "x"}', '\t//["00", 2]', '// // //',
+                   '//"', '// \\', ' //#']
+
+
+def gen_string_file(rng):
+    """well-formed file whose label / extra attributes hold strings with comment-like and JSON-structural contents
+    (directly, or nested in lists / objects, as values and as inner keys), in json.dumps and in hand-written spellings"""
+    n = rng.choice([1, 2, 3, 5])
+    m = rng.choice([0, 1, 1, 2, 3, 5])
+    p = rng.choice([0.1, 0.25, 0.5])
+
+    def string():
+        if rng.random() < 0.25:
+            return rng.choice(RAW_STRINGS)
+        v = rng.choice(TRICKY)
+        return json.dumps(v), v
+
+    def value():
+        raw, v = string()
+        shape = rng.choice(['s', 's', 's', 'list', 'obj', 'key', 'deep'])
+        if shape == 's':
+            return raw, v
+        raw2, v2 = string()
+        if shape == 'list':
+            return '[{}, 1, {}]'.format(raw, raw2), [v, 1, v2]
+        if shape == 'obj':
+            return '{{"k": {}}}'.format(raw), {'k': v}
+        if shape == 'key':
+            return '{{{}: 1}}'.format(raw), {v: 1}
+        return '[{{"u": [{}]}}, {}]'.format(raw, raw2), [{'u': [v]}, v2]
+    items = [('probability', json.dumps(p), p)]
+    raw, v = string()
+    items.append(('label', raw, v))
+    if rng.random() < 0.4:
+        items.append(('probability_distribution', '[0.9, 0.05, 0.03, 0.02]', [0.9, 0.05, 0.03, 0.02]))
+    for k in rng.sample(EXTRA_NAMES, rng.choice([1, 1, 2, 3])):
+        raw, v = value()
+        items.append((k, raw, v))
+    header = {k: v for k, _, v in items}
+    rng.shuffle(items)
+    lines = []
+    while items:
+        k = rng.randint(1, len(items))
+        sep = rng.choice([', ', ',', ' , '])
+        lines.append('{' + sep.join('{}:{}{}'.format(json.dumps(key), rng.choice(['', ' ']), raw)
+                                    for key, raw, _ in items[:k]) + '}')
+        items = items[k:]
+    body = [pack_bits([1 if rng.random() < 0.3 else 0 for _ in range(2 * n)]) for _ in range(m)]
+    lines += [json.dumps(b) for b in body]
+    out = []
+    for l in lines:
+        while rng.random() < 0.2:
+            out.append(rng.choice(TRICKY_COMMENTS + ['', ' ']))
+        out.append((rng.choice(WS) if rng.random() < 0.15 else '') + l)
+    start = rng.choice([0, 0, 0, 1, m]) if m else 0
+    start = min(start, m)
+    calls = [('l',)] + [('x', k) for k in header if k not in ('probability', 'label', 'probability_distribution')]
+    calls += [('x', 'nope'), ('d', p)]
+    calls += [('g', n, p)] * (m - start + 1)
+    rng.shuffle(calls)
+    return out, {'n': n, 'm': m, 'p': p, 'kind': 'wellformed', 'cls': 'header-strings', 'header': header,
+                 'calls': calls, 'start': start}
+
+
+# ---- requested PROBABILITY values as a class ---------------------------------------------------------------------------
+# "refuses a probability … that disagrees with the file": only a requested value EQUAL (==, as numbers) to the header value
+# may be served; a value one ulp away, a differently rounded decimal computation, a tiny relative offset all disagree.
+def near_values(rng, f):
+    """requested values around the header probability f (a float): (value, how it was obtained)"""
+    import math
+    out = [(f, 'the header value'), (f, 'the header value')]
+    if f == int(f):
+        out += [(int(f), 'int equal to the header value'), (bool(f), 'bool equal to the header value')] if f in (0.0, 1.0) \
+            else [(int(f), 'int equal to the header value')]
+    up = math.nextafter(f, math.inf); dn = math.nextafter(f, -math.inf)
+    out += [(up, 'next double above'), (dn, 'next double below'),
+            (math.nextafter(up, math.inf), 'two doubles above'), (math.nextafter(dn, -math.inf), 'two doubles below')]
+    for e in (16, 15, 14, 13, 12, 11, 10, 9, 8, 7, 6):
+        k = 10.0 ** -e
+        out += [(f * (1 + k), 'header * (1 + 1e-{})'.format(e)), (f * (1 - k), 'header * (1 - 1e-{})'.format(e)),
+                (f + k, 'header + 1e-{}'.format(e)), (f - k, 'header - 1e-{}'.format(e))]
+    for i in (40, 45, 50):
+        out.append((f * (1 + 2.0 ** -i), 'header * (1 + 2**-{})'.format(i)))
+    # the same decimal number computed differently
+    out += [(f * 3 / 3, 'header * 3 / 3'), ((f + 1) - 1, '(header + 1) - 1'), (f / 7 * 7, 'header / 7 * 7'),
+            (1 - (1 - f), '1 - (1 - header)'), (f / 10 * 10, 'header / 10 * 10'), (f * 0.1 / 0.1, 'header * 0.1 / 0.1'),
+            (f / 3 + f / 3 + f / 3, 'header/3 summed three times'), (sum([f / 10] * 10), 'header/10 summed ten times'),
+            (float('%.15g' % f), 'header printed with 15 digits'), (float('%.12g' % f), 'header printed with 12 digits'),
+            (float('%.9g' % f), 'header printed with 9 digits'), (float(np.float32(f)), 'header rounded to float32'),
+            (np.float64(f), 'numpy.float64 of the header value')]
+    rng.shuffle(out)
+    return out
+
+
+# (raw JSON text of the header probability, decimal computations that "should" give it)
+PROB_HEADERS = [('0.3', [0.1 + 0.2, 0.1 * 3, 1 - 0.7, 3 / 10, 0.6 / 2, 0.15 + 0.15]),
+                ('0.30000000000000004', [0.3, 0.1 + 0.2]), ('3e-1', [0.1 + 0.2, 0.3]), ('0.30', [0.1 + 0.2]),
+                ('0.1', [0.3 - 0.2, 1 / 10, 1 - 0.9, 0.05 + 0.05]), ('0.7', [1 - 0.3, 0.1 * 7, 0.35 + 0.35, 7 / 10]),
+                ('0.25', [0.25, 1 / 4]), ('0.5', [1 / 2]), ('1', [1.0, 1, True, 0.9 + 0.1, 0.7 + 0.3]),
+                ('1.0', [1, 0.8 + 0.2]), ('0', [0.0, 0, False, 5e-324, 1e-300, -0.0]), ('0.0', [0, 1e-17]),
+                ('0.001', [1e-3, 1 / 1000, 0.1 ** 3]), ('1e-3', [0.1 ** 3]), ('0.3333333333333333', [1 / 3, 1 - 2 / 3]),
+                ('0.05', [0.15 - 0.1, 1 / 20]), ('"0.3"', [0.1 + 0.2, 0.3]), ('0.45', [0.15 * 3, 0.9 / 2]),
+                ('1e-10', [1e-10, 1e-5 ** 2]), ('0.9999999999', [1.0, 1 - 1e-10])]
+
+
+def gen_prob_file(rng):
+    n = rng.choice([1, 2, 3, 5])
+    raw, computed = rng.choice(PROB_HEADERS)
+    f = float(json.loads(raw))
+    asked = near_values(rng, f) + [(v, 'a decimal computation near the header value') for v in computed]
+    rng.shuffle(asked)
+    asked = asked[:rng.choice([8, 16, 40])]
+    header = {'probability': json.loads(raw), 'label': 'probabilities'}
+    head = ['{{"probability": {}}}'.format(raw)]
+    if rng.random() < 0.7:
+        header['probability_distribution'] = [0.9, 0.05, 0.03, 0.02]
+        head.append('{"probability_distribution": [0.9, 0.05, 0.03, 0.02]}')
+    head.append('{"label": "probabilities"}')
+    rng.shuffle(head)
+    calls, how = [], {}
+    for v, h in asked:
+        if isinstance(v, float) and (v != v or v in (float('inf'), float('-inf'))):
+            continue
+        how.setdefault(repr(v), h)
+        calls.append(('g', n, v) if rng.random() < 0.7 else ('d', v))
+    m = sum(1 for c in calls if c[0] == 'g' and c[2] == f) + rng.choice([0, 1, 3])
+    body = [pack_bits([1 if rng.random() < 0.3 else 0 for _ in range(2 * n)]) for _ in range(m)]
+    calls += [('g', n, f)] * rng.choice([0, 1, 2])
+    lines = decorate(rng, head + [json.dumps(b) for b in body])
+    return lines, {'n': n, 'm': m, 'p': f, 'kind': 'wellformed', 'cls': 'requested-probability', 'header': header,
+                   'calls': calls, 'start': 0, 'how': how}
+
+
+def expected_wellformed(lines, header, start, calls, pf):
+    """the property from the file text alone, for a well-formed file (start <= number of records): outcome string"""
+    body = [json.loads(l) for l in lines if tok_of(l).startswith('E') and not l.strip().startswith('//')]
+    if not body:
+        return 'open=EOFError'      # documented: the header ends at the first record; without one the start error is unavailable
+    ptr = int(start)
+    out = []
+    for c in calls:
+        if c[0] == 'g':
+            if c[2] != pf:
+                out.append('Rejected')
+            elif ptr >= len(body):
+                out.append('EOFError')
+            else:
+                e = unpack_bits(body[ptr]); ptr += 1
+                out.append(bits(e) if len(e) == 2 * c[1] else 'Rejected')
+        elif c[0] == 'd':
+            pd = header.get('probability_distribution')
+            out.append(hval(list(pd)) if c[1] == pf and pd else 'ValueError')
+        elif c[0] == 'l':
+            out.append(hval(header['label']))
+        else:
+            out.append(hval(header[c[1]]) if c[1] in header and c[1] not in ('probability', 'label',
+                                                                              'probability_distribution') else 'AttributeError')
+    return 'open=ok ' + '|'.join(out)
+
+
+def class_monitor(ctx, lines, info, start, calls, impl):
+    """direct monitors (independent of the Lean model) for the header-strings and requested-probability classes"""
+    pf = float(info['p'])
+    want = expected_wellformed(lines, info['header'], start, calls, pf)
+    if impl == want:
+        return
+    inp = {'lines': lines, 'start': str(start), 'calls': [[_plain(x) for x in c] for c in calls], 'class': info['cls']}
+    if not impl.startswith('open=ok'):
+        ctx.monitor_fail('a well-formed error file is rejected ({}): its header strings contain comment-like / structural '
+                         'characters, which are ordinary string contents (a comment is // at the start of a line)'.format(
+                             impl), dict(inp, header=info['header']))
+        return
+    got, exp = impl[8:].split('|'), want[8:].split('|')
+    for i, (c, g, e) in enumerate(zip(calls, got, exp)):
+        if g == e:
+            continue
+        if c[0] in ('g', 'd') and c[-1] != pf and e in ('Rejected', 'ValueError'):
+            v = c[-1]
+            ctx.monitor_fail('{} was answered for probability {!r} although the file header records {!r}: a probability that '
+                             'disagrees with the file must be refused (requested value: {}; difference {:.3e})'.format(
+                                 'generate' if c[0] == 'g' else 'probability_distribution', v, pf,
+                                 info.get('how', {}).get(repr(v), '?'), float(Fraction(v) - Fraction(pf))),
+                             dict(inp, call_index=i, requested=repr(v), header_probability=repr(pf), got=g[:80], expected=e))
+        else:
+            ctx.monitor_fail('well-formed file: call {} ({}) returned {} where the file dictates {}'.format(
+                i, c[0], g[:80], e[:80]), dict(inp, call_index=i, got=g[:80], expected=e[:80]))
+        return
+
+
+def _plain(x):
+    if isinstance(x, (bool, int, str)):
+        return x
+    if isinstance(x, float):
+        return repr(x) if x != x or x in (float('inf'), float('-inf')) else float(x)
+    return float(x)
 
 
 MUTATIONS = ['zero', 'flip-all', 'flip-one', 'xor-held', 'fill-1', 'none', 'zero', 'flip-all']
@@ -461,6 +688,11 @@ def run(ctx):
         for n in ([1, 2, 3, 4, 5, 7, 8, 9, 12, 13] if ctx.quick() else list(range(1, 18)) + [20, 25, 40]):
             for _ in range(ctx.scale(2, 6)):
                 cases.append(gen_length_file(rng, n))
+        # header STRING contents as a class; requested PROBABILITY values as a class
+        for _ in range(ctx.scale(250, 3000)):
+            cases.append(gen_string_file(rng))
+        for _ in range(ctx.scale(150, 2000)):
+            cases.append(gen_prob_file(rng))
         # repo fixtures
         fx = os.path.join(os.environ.get('QECSIM_REPO', '/repo'), 'tests', 'models',
                           'test_generic_file_error_model_files')
@@ -515,17 +747,22 @@ def run(ctx):
             with open(path, 'w', encoding='latin-1', newline='') as f:
                 f.write(''.join(l + '\n' for l in lines))
             impl = drive(path, start, calls, info['header'])
-            cw = ','.join(('g{}:{}'.format(c[1], rat(Fraction(c[2]))) if c[0] == 'g' else
-                           'd' + rat(Fraction(c[1])) if c[0] == 'd' else 'l' if c[0] == 'l' else 'x' + hexs(c[1]))
+            cw = ','.join(('g{}:{}'.format(c[1], rat(Fraction(float(c[2])))) if c[0] == 'g' else
+                           'd' + rat(Fraction(float(c[1]))) if c[0] == 'd' else 'l' if c[0] == 'l' else 'x' + hexs(c[1]))
                           for c in calls) or '.'
             sw = 'X' if start == 'X' else str(int(start))
             line = 'c18 run {} {} {}'.format(sw, wire_lines(lines), cw)
             ctx.case(line, impl, nontrivial=(info['m'] > 0 or info['kind'] != 'wellformed'),
                      meta={'kind': info['kind'], 'lines': lines, 'start': sw,
-                           'calls': [list(c) for c in calls], 'n': n})
+                           'calls': [[_plain(x) for x in c] for c in calls], 'n': n})
             ctx.count('kind', info['kind'].split(':')[0]); ctx.count('open', impl.split()[0])
             if 'cls' in info:
-                ctx.count('class', info['cls']); ctx.count('lengths-n', n)
+                ctx.count('class', info['cls'].split(':')[0])
+                if info['cls'].startswith('lengths'):
+                    ctx.count('class', info['cls']); ctx.count('lengths-n', n)
+                if info['cls'] in ('header-strings', 'requested-probability'):
+                    class_monitor(ctx, lines, info, start, calls, impl)
+                    continue
             ctx.count('start', sw if sw in ('X', '-1') else ('0' if sw == '0' else '>0'))
             # direct monitor of the core clause: a well-formed file serves exactly the recorded errors in order
             if info['kind'] == 'wellformed' and impl.startswith('open=ok') and isinstance(start, int) and start >= 0:
